@@ -490,8 +490,15 @@ namespace BitSerializer::Convert::Detail
 		{
 			throw std::out_of_range("Target duration is not enough");
 		}
-		const int64_t days = era * 146097ll + (static_cast<int>(doe) - 719468);
-		const auto time = static_cast<long long>(utc.Hour) * 3600 + static_cast<long long>(utc.Min) * 60 + utc.Sec;
+		int64_t days = era * 146097ll + (static_cast<int>(doe) - 719468);
+		auto time = static_cast<long long>(utc.Hour) * 3600 + static_cast<long long>(utc.Min) * 60 + utc.Sec;
+		// Dates before the epoch are composed as `(days + 1) - (24h - time)`, otherwise the whole days alone
+		// can be out of range for a time point which itself is representable (e.g. the minimum of nanoseconds based time)
+		if (days < 0)
+		{
+			++days;
+			time -= 86400;
+		}
 
 		std::chrono::time_point<TClock, TDuration> tp;
 		SafeAddDuration(tp, std::chrono::seconds(time));
